@@ -2,7 +2,7 @@
     Only statements here; proofs are in Proofs/HostsProofs.v.  [V1] is the code after the
     two fix: commits of this property (chain following in get_host, IPv6 loopback test);
     [V0] is the snapshot. *)
-From KV Require Import Bytes Hosts HostsProofs.
+From KV Require Import Bytes CacheX HostsPipe HostsPipeProofs Hosts HostsProofs.
 Open Scope N_scope.
 
 (** Routing = reference resolver.  For every sequence of builder calls that does not
@@ -212,6 +212,64 @@ Theorem tls_handshake_refuted : forall auth_ok : bytes -> bool,
     wire_spec ops (fun _ => hstate0) [rb] = [W200 0 1].
 Proof. exact tls_handshake_refused_refuted. Qed.
 
+(** ---- the multi-host server over the real pipeline model (Model/HostsPipe.v) -----------------------
+    [prun cfgs (proute c) (ptargets c)] is the product of Model/Hosts.v instantiated with the model of
+    [kvarn::handle_cache] of C03/C04 (Model/CacheX.v: response cache, variants, lifetimes, conditional
+    requests, the fixture handlers with their invocation counters) as every host's [serve], the model of
+    [handle_connection]'s host choice as [route], and [Collection::clear_page(name, uri)] /
+    [clear_response_caches(filter)] / waits as further events.  For EVERY configuration the builder
+    accepts, EVERY assignment of pipeline configurations to the hosts, EVERY starting state and EVERY
+    history: the state of host [i] and the replies to the events that concern it are those of host [i]'s
+    own pipeline on the sub-history the SPECIFICATION assigns to it (reference resolver; the owner of the
+    name given to [clear_page]; for [clear_response_caches] the hosts reachable under their own name whose
+    name passes the filter).  Nothing another host was asked, and no clear aimed at another host, has any
+    effect on it. *)
+Theorem multi_host_pipeline_eq_projection : forall (ops : list Hosts.op) (c : collection) (cfgs : list configx)
+    (es : list pevent) (st : nat -> pstate) (i : nat),
+  build ops = Ok c -> Forall wf_pevent es ->
+  fst (prun cfgs (proute c) (ptargets c) st es) i
+  = fst (srun pstate preq prep padm (pserve cfgs) padmin i (st i)
+              (filter (concerns preq padm (spec_proute ops) (spec_ptargets ops) i) es)) /\
+  replies_for preq prep padm (spec_proute ops) (spec_ptargets ops) i es (snd (prun cfgs (proute c) (ptargets c) st es))
+  = snd (srun pstate preq prep padm (pserve cfgs) padmin i (st i)
+              (filter (concerns preq padm (spec_proute ops) (spec_ptargets ops) i) es)).
+Proof. exact pipeline_projection. Qed.
+
+(** The model of the code answers every such history exactly as the specification server does. *)
+Theorem multi_host_pipeline_eq_spec : forall (ops : list Hosts.op) (c : collection) (cfgs : list configx)
+    (es : list pevent) (st : nat -> pstate),
+  build ops = Ok c -> Forall wf_pevent es ->
+  snd (prun cfgs (proute c) (ptargets c) st es) = snd (prun cfgs (spec_proute ops) (spec_ptargets ops) st es).
+Proof. exact pipeline_eq_spec. Qed.
+
+(** Host [i] on its own is the single-host pipeline of C03/C04: its state after a sub-history is the
+    state [CacheX.runX_state] reaches with host [i]'s configuration on the same operations. *)
+Theorem host_alone_is_cache_pipeline : forall (cfgs : list configx) (i : nat) (es : list pevent) (s : statex (list N)) (now : N),
+  fst (srun pstate preq prep padm (pserve cfgs) padmin i (s, now) es)
+  = runX_state (list N)
+      (compute_x (cf_default_ext (cx_base (cfg_of cfgs i))) (cf_handlers (cx_base (cfg_of cfgs i))) (cx_xhandlers (cfg_of cfgs i)))
+      (cf_cache (cx_base (cfg_of cfgs i))) (cf_ims (cx_base (cfg_of cfgs i)))
+      (cx_fix_vary (cfg_of cfgs i)) (cx_fix_ovkey (cfg_of cfgs i)) (cx_fix_clear (cfg_of cfgs i)) (cx_fix_svary (cfg_of cfgs i))
+      (cx_fix_qmkey (cfg_of cfgs i)) (cx_fix_ims (cfg_of cfgs i))
+      (sfilter_fix (cx_sfilter (cfg_of cfgs i))) parse_ims_fix sanitize_ok_fix
+      (if cf_default_ext (cx_base (cfg_of cfgs i)) then uri_redirect else (fun r => r))
+      (override_x (cf_default_ext (cx_base (cfg_of cfgs i))) (cx_ovprime (cfg_of cfgs i)))
+      (fun _ _ => None)
+      (vary_tuple_x (cx_fix_ovkey (cfg_of cfgs i)) (cf_vary (cx_base (cfg_of cfgs i))))
+      (vary_header_x (cx_fix_ovkey (cfg_of cfgs i)) (cf_vary (cx_base (cfg_of cfgs i)))) clear_alias_fix
+      s now (map to_opx es).
+Proof. exact host_alone_is_cache_model. Qed.
+
+(** Which hosts [clear_response_caches(filter)] / [clear_file_caches(filter)] reach, and which host
+    [clear_page(name, ..)] / [clear_file(name, ..)] touch. *)
+Theorem clear_all_targets_eq : forall (ops : list Hosts.op) (c : collection) (flt : option bytes) (i : nat),
+  build ops = Ok c -> (In i (map hid (clear_all_targets c flt)) <-> cleared_by_all ops flt i = true).
+Proof. exact clear_all_targets_members. Qed.
+
+Theorem clear_page_target_eq : forall (ops : list Hosts.op) (c : collection) (name : bytes),
+  build ops = Ok c -> omap hid (clear_target V1 c name) = Ok (clear_reference ops name).
+Proof. exact clear_target_reference. Qed.
+
 (** ---- non-vacuity: concrete configurations meeting the hypotheses, on every branch ------- *)
 Definition ex_ops : list op :=
   [ (false, cfg (B "a.test") [B "www.a.test"]); (true, cfg (B "b.test") []); (false, cfg (B "c.test") [B "c.alt"; B "c.test"]) ].
@@ -270,3 +328,14 @@ Proof.
   - repeat constructor; try (vm_compute; reflexivity); intros a Ht Ha; inversion Ha; subst; vm_compute; reflexivity.
   - apply auth_ok_approx_text.
 Qed.
+(** two hosts with the same counting handler on the same path: each counts for itself; the filtered clear
+    empties only a.test's cache, [clear_page] only b.test's *)
+Example ex_pipeline :
+  exists c, build ex_pops = Ok c /\ Forall wf_pevent ex_history /\
+  map (fun o => match o with
+                | Some (PObs i (XbReply rp _)) => Some (i, rx_body rp)
+                | _ => None end)
+      (snd (prun [ex_cx; ex_cx] (proute c) (ptargets c) (fun _ => cfg_state0 ex_cx) ex_history))
+  = [Some (0%nat, B "n=1"); Some (1%nat, B "n=1"); Some (0%nat, B "n=1"); None;
+     Some (0%nat, B "n=2"); Some (1%nat, B "n=1"); None; Some (1%nat, B "n=2")].
+Proof. eexists. split; [vm_compute; reflexivity|]. split; [repeat constructor; vm_compute; reflexivity | vm_compute; reflexivity]. Qed.
